@@ -49,10 +49,8 @@ def methods : List (String × String) := [
   ("FileSystem.__init__", "def __init__(self, **kwargs):\n    super().__init__(**kwargs)\n    if not self.folders:\n        self.create_folder('root')"),
   ("FileSystem.setup_for_episode", "def setup_for_episode(self, episode):\n    super().setup_for_episode(episode=episode)\n    self.num_file_creations = 0\n    self.num_file_deletions = 0"),
   ("FileSystem.create_folder", "def create_folder(self, folder_name):\n    folder = self.get_folder(folder_name)\n    if folder:\n        pass\n    else:\n        folder = Folder(name=folder_name, sys_log=self.sys_log)\n        self._folder_request_manager.add_request(name=folder.name, request_type=RequestType(func=folder._request_manager))\n    self.folders[folder.uuid] = folder\n    if self._default_folder_scan_duration is not None:\n        folder.scan_duration = self._default_folder_scan_duration\n    if self._default_folder_restore_duration is not None:\n        folder.restore_duration = self._default_folder_restore_duration\n    return folder"),
-  ("FileSystem.delete_folder", "def delete_folder(self, folder_name):\n    if folder_name == 'root':\n        return False\n    folder = self.get_folder(folder_name)\n    if not folder:\n        return False\n    folder.delete()\n    self.folders.pop(folder.uuid)\n    folder.remove_all_files()\n    self.deleted_folders[folder.uuid] = folder\n    return True"),
   ("FileSystem.create_file", "def create_file(self, file_name, size=None, file_type=None, folder_name=None, force=False):\n    if folder_name:\n        folder = self.get_folder(folder_name)\n        if not folder:\n            folder = self.create_folder(folder_name)\n    else:\n        folder = self.get_folder('root')\n    file = self.get_file(folder.name, file_name)\n    if file:\n        if force:\n            pass\n    else:\n        file = File(name=file_name, sim_size=size, file_type=file_type, folder_id=folder.uuid, folder_name=folder.name, sim_root=self.sim_root, sys_log=self.sys_log)\n    folder.add_file(file, force=force)\n    self.num_file_creations += 1\n    return file"),
   ("FileSystem.get_file", "def get_file(self, folder_name, file_name, include_deleted=False):\n    folder = self.get_folder(folder_name, include_deleted=include_deleted)\n    if folder:\n        return folder.get_file(file_name, include_deleted=include_deleted)"),
-  ("FileSystem.restore_folder", "def restore_folder(self, folder_name):\n    folder = self.get_folder(folder_name=folder_name, include_deleted=True)\n    if folder is None:\n        return False\n    self.deleted_folders.pop(folder.uuid, None)\n    folder.restore()\n    self.folders[folder.uuid] = folder\n    self._folder_request_manager.add_request(name=folder.name, request_type=RequestType(func=folder._request_manager))\n    return True"),
   ("FileSystem.access_file", "def access_file(self, folder_name, file_name):\n    folder = self.get_folder(folder_name=folder_name)\n    if folder:\n        file = folder.get_file(file_name=file_name)\n        if file:\n            file.num_access += 1\n            return True\n        else:\n            pass\n    return False"),
   ("FileSystem.pre_timestep", "def pre_timestep(self, timestep):\n    super().pre_timestep(timestep)\n    self.num_file_creations = 0\n    self.num_file_deletions = 0\n    for folder in self.folders.values():\n        folder.pre_timestep(timestep)"),
   ("FileSystem.apply_timestep", "def apply_timestep(self, timestep):\n    super().apply_timestep(timestep=timestep)\n    for folder_id in self.folders:\n        self.folders[folder_id].apply_timestep(timestep=timestep)"),
